@@ -13,7 +13,12 @@ type Parser struct {
 	didEndStatement bool
 	inFunction      bool
 	inLoop          bool
+	depth           int
 }
+
+// how deeply expressions and statements may nest in the program text. The
+// parser recurses once per level, so unbounded nesting would overflow the stack
+var parseDepthLimit = 10000
 
 type parseRule struct {
 	prec   Precedence
@@ -178,6 +183,12 @@ func (p *Parser) block() (StatementBlock, error) {
 }
 
 func (p *Parser) statement() (Statement, error) {
+	p.depth++
+	defer func() { p.depth-- }()
+	if p.depth > parseDepthLimit {
+		return nil, p.error(p.current.Pos, "program nested too deeply")
+	}
+
 	p.didEndStatement = false
 	switch p.current.Tag {
 	case Print:
@@ -431,6 +442,12 @@ func (p *Parser) expression() (Expr, error) {
 }
 
 func (p *Parser) expressionWithPrec(prec Precedence) (Expr, error) {
+	p.depth++
+	defer func() { p.depth-- }()
+	if p.depth > parseDepthLimit {
+		return nil, p.error(p.current.Pos, "program nested too deeply")
+	}
+
 	prefixRule := p.rule(p.current.Tag)
 	if prefixRule.prefix == nil {
 		return nil, p.error(p.current.Pos, fmt.Sprintf("unexpected token %s", p.current.Tag))
